@@ -320,4 +320,24 @@ def _padextract(shard, ctx, col, np):
                         e = exp if mode is sp.ExtractMode.STACK else (exp.reshape(-1) if mode is sp.ExtractMode.CONCATENATE else exp.mean(axis=0))
                         if np.asarray(got).shape != e.shape or not np.allclose(got, e, rtol=1e-12, atol=0):
                             col.violation('C19/extract/%s' % mode.name.lower(), 'extract_around_indexes%s = %s expected %s' % (case, np.asarray(got).tolist(), e.tolist()), case)
+    # index arrays of every integer dtype, with indexes at the very edge of what the dtype can hold (index + after / index - before must not wrap)
+    for idt in ('int8', 'uint8', 'int16', 'uint16', 'int32', 'int64'):
+        info = np.iinfo(idt)
+        n = int(min(info.max, 40000)) + 8
+        long_data = (np.arange(n, dtype='float64') * 7) % 1001
+        top = int(min(info.max, n - 8))
+        for idx in ([3, top - 2, top], [top], [5, 6, top - 1]):
+            for before, after in ((0, 3), (2, 5), (3, 0)):
+                ind = np.array(idx, dtype=idt)
+                exp = np.array([[long_data[i - before + j] for j in range(before + after + 1)] for i in idx])
+                for mode in sp.ExtractMode:
+                    col.evaluations += 1; col.states += 1; col.transitions += 1; col.nontrivial += 1
+                    case = {'indexes': list(idx), 'index_dtype': idt, 'before': before, 'after': after, 'mode': mode.name, 'signal_length': n}
+                    try:
+                        got = sp.extract_around_indexes(long_data, ind, before, after, mode)
+                    except Exception as e:
+                        col.violation('C19/extract/raised', '%s indexes %s: %s: %s' % (idt, idx, type(e).__name__, e), case); continue
+                    e = exp if mode is sp.ExtractMode.STACK else (exp.reshape(-1) if mode is sp.ExtractMode.CONCATENATE else exp.mean(axis=0))
+                    if np.asarray(got).shape != e.shape or not np.allclose(got, e, rtol=1e-12, atol=0):
+                        col.violation('C19/extract/index-dtype', 'extract_around_indexes(signal of %d samples, %s indexes %s, before=%d, after=%d, %s) does not return the samples around the indexes' % (n, idt, idx, before, after, mode.name), case)
     col.sample({'function': 'pad/extract_around_indexes', 'example': {'indexes': [2, 5], 'before': 1, 'after': 2}}, limit=1)
